@@ -234,6 +234,8 @@ type rigSessProj struct {
 	SnapCmid  uint64   `json:"marshalCmid"` // what Marshal() would put into a snapshot
 	Channels  []string `json:"channels,omitempty"`
 	InMarshal bool     `json:"inMarshal"`
+	Operator  bool     `json:"operator,omitempty"`
+	Server    bool     `json:"server,omitempty"`
 }
 
 type rigProbe struct {
@@ -372,6 +374,8 @@ func rigTakeProbe(aliases map[string]*rigClientSess, full bool, fss *raft.FileSn
 			sp.LoggedIn = s.LoggedIn == pb.Bool_TRUE
 			sp.SnapCmid = s.LastClientMessageId
 			sp.Channels = s.Channels
+			sp.Operator = s.Operator
+			sp.Server = s.Server
 		}
 		p.Sessions = append(p.Sessions, sp)
 		seen[id] = true
